@@ -298,8 +298,10 @@ def r3_commands(report, repo):
                'the data phase follows the announcement with the same length')
   s = repo.func(FP, 'FastbootProtocol.send_command')
 
+  cmd_p, arg_p = lib.param_names(s.node)[1:3]
+
   def classify(expr, steps):
-    if isinstance(expr, ast.Compare) and core.is_name(expr.left, 'arg') and \
+    if isinstance(expr, ast.Compare) and core.is_name(expr.left, arg_p) and \
         isinstance(expr.comparators[0], ast.Constant) and \
         expr.comparators[0].value is None:
       return 'has_arg' if isinstance(expr.ops[0], ast.IsNot) else ('not',
@@ -312,22 +314,28 @@ def r3_commands(report, repo):
     ws = p.calls(name='self._write')
     if len(ws) != 1:
       return 'one-packet: a command must be exactly one write (%d)' % len(ws)
-    joins = [n for n, _ in p.steps if n.kind == 'stmt' and isinstance(
-        n.ast, ast.Assign) and core.is_name(n.ast.targets[0], 'command')]
+    w = ws[0]
+    wi = p.index_of(lambda n_: n_.contains(w))
+    if not (len(w.args) == 2 and isinstance(w.args[0], ast.Call) and
+            w.args[0].args):
+      return 'one-packet: must write the whole command string'
+    sent = w.args[0].args[0]
+    ln = w.args[1]
+    if not (call_name(ln) == 'len' and dotted(ln.args[0]) == dotted(sent)
+            and dotted(sent) is not None):
+      return 'one-packet: must write the whole command string'
+    # what the written string stands for on this path
+    val = cfgm.path_resolve(p, sent, before_index=wi)
     if v['has_arg']:
-      ok = len(joins) == 1 and isinstance(joins[0].ast.value, ast.BinOp) and \
-          core.const_str(joins[0].ast.value.left) == '%s:%s' and \
-          [dotted(e) for e in joins[0].ast.value.right.elts] == ['command',
-                                                                 'arg']
+      ok = isinstance(val, ast.BinOp) and isinstance(val.op, ast.Mod) and \
+          core.const_str(val.left) == '%s:%s' and isinstance(
+              val.right, ast.Tuple) and [dotted(e) for e in val.right.elts] == [
+                  cmd_p, arg_p]
       if not ok:
         return 'arg-row: command and argument must be joined as "command:arg"'
-    elif joins:
+    elif dotted(val) != cmd_p:
       return 'no-arg-row: the command is altered although no argument is given'
-    w = ws[0]
-    ok = len(w.args) == 2 and isinstance(w.args[0], ast.Call) and \
-        dotted(w.args[0].args[0]) == 'command' and norm(w.args[1]) == \
-        'len(command)'
-    return None if ok else 'one-packet: must write the whole command string'
+    return None
 
   lib.decision_table(report, rule, s, ['has_arg'], classify, spec)
 
@@ -342,13 +350,16 @@ def r4_transfer(report, repo):
   loops = [n for n in walk_no_nested(f.node) if isinstance(n, ast.While)]
   report.expect_instances(rule, len(loops), 1, 'transfer loops')
   lp = loops[0]
-  report.check(core.is_name(lp.test, 'length'), rule, f.qualname, 'loop-cond',
-               lp, 'the loop runs while bytes remain')
+  # the countdown variable: the length parameter itself or a local copy of it
+  left = lp.test.id if isinstance(lp.test, ast.Name) else None
+  lenp = lib.param_names(f.node)[2]
+  report.check(left is not None and lenp in lib.copy_class(f, left), rule,
+               f.qualname, 'loop-cond', lp, 'the loop runs while bytes remain')
   rd = [n for n in lp.body if isinstance(n, ast.Assign) and
         last_attr(n.value) == 'read']
   wr = core.calls_in(lp, name='self.usb.write')
   dec = [n for n in lp.body if isinstance(n, ast.AugAssign) and
-         core.is_name(n.target, 'length')]
+         left is not None and core.is_name(n.target, left)]
   ok = len(rd) == 1 and len(wr) == 1 and len(dec) == 1
   if ok:
     buf = dotted(rd[0].targets[0])
